@@ -445,6 +445,36 @@ def _consume_onnx_function_hits() -> None:
         pass
 
 
+def _keep_graph_outputs_distinct(ir_model: ir.Model) -> None:
+    """Give every result leaf a value of its own after optimisation.
+
+    Output binding already aliases a leaf that repeats an earlier one, but the optimizer
+    can merge two leaves again (``(y, y.T.T)``: the transpose pair folds onto ``y``).  Two
+    graph outputs that are one value share one name and cannot carry distinct
+    user-supplied names, so a repeated value gets an Identity of its own.
+    """
+    graph = ir_model.graph
+    seen: set[int] = set()
+    used = {v.name for node in graph for v in node.outputs if v.name}
+    used |= {v.name for v in graph.inputs if v.name}
+    for idx, value in enumerate(list(graph.outputs)):
+        if id(value) not in seen:
+            seen.add(id(value))
+            continue
+        base = f"{value.name or 'out'}_alias"
+        name, n = base, 0
+        while name in used:
+            n += 1
+            name = f"{base}_{n}"
+        used.add(name)
+        alias = ir.Value(name=name, type=value.type, shape=value.shape)
+        graph.append(
+            ir.Node("", "Identity", inputs=[value], outputs=[alias], name=f"{name}_node")
+        )
+        graph.outputs[idx] = alias
+        seen.add(id(alias))
+
+
 def _build_and_finalize_ir_model(
     ctx: IRContext,
     *,
@@ -465,6 +495,7 @@ def _build_and_finalize_ir_model(
         strict_optimizer_failures=strict_optimizer_failures,
     )
 
+    _keep_graph_outputs_distinct(ir_model)
     _apply_late_ir_attr_overrides(ir_model, ctx)
     _consume_onnx_function_hits()
 
